@@ -1,38 +1,112 @@
 package main
 
 import (
+	"flag"
 	"fmt"
 	"os"
+	"sort"
+	"strings"
+	"time"
 
-	"golang.org/x/tools/go/packages"
-	"golang.org/x/tools/go/ssa"
 	"golang.org/x/tools/go/ssa/ssautil"
 )
 
-func main() {
-	cfg := &packages.Config{Mode: packages.LoadAllSyntax, Dir: "/repo", BuildFlags: []string{"-tags=verif"}}
-	pkgs, err := packages.Load(cfg, "./spine", "./model", "./util", "./api")
-	if err != nil {
-		panic(err)
+func scratchDir() string {
+	base := os.Getenv("VERIF_SCRATCH")
+	if base == "" {
+		base = "/var/tmp/verif-scratch"
 	}
-	prog, spkgs := ssautil.AllPackages(pkgs, ssa.GlobalDebug)
-	prog.Build()
-	for _, p := range spkgs {
-		if p != nil && p.Pkg.Name() == "spine" {
-			for _, m := range p.Members {
-				if t, ok := m.(*ssa.Type); ok && t.Name() == os.Args[1] {
-					ms := prog.MethodSets.MethodSet(t.Type())
-					_ = ms
-					pms := prog.MethodSets.MethodSet(typesPtr(t))
-					for i := 0; i < pms.Len(); i++ {
-						fn := prog.MethodValue(pms.At(i))
-						if fn != nil && fn.Name() == os.Args[2] {
-							fn.WriteTo(os.Stdout)
-						}
+	d := fmt.Sprintf("%s/%d", base, os.Getpid())
+	os.MkdirAll(d, 0o755)
+	return d
+}
+
+func main() {
+	if len(os.Args) < 2 {
+		fmt.Fprintln(os.Stderr, "usage: govc verify|check|ssa|list ...")
+		os.Exit(2)
+	}
+	switch os.Args[1] {
+	case "ssa":
+		eng, err := loadEngine("/repo", "/verif")
+		if err != nil {
+			fmt.Fprintln(os.Stderr, err)
+			os.Exit(2)
+		}
+		for fn := range ssautil.AllFunctions(eng.prog) {
+			if strings.Contains(fn.String(), os.Args[2]) {
+				fn.WriteTo(os.Stdout)
+			}
+		}
+	case "verify":
+		fs := flag.NewFlagSet("verify", flag.ExitOnError)
+		props := fs.String("props", "", "comma-separated property ids (clauses tagged with them plus untagged ones)")
+		keep := fs.Bool("keep", false, "keep SMT files")
+		timeout := fs.Int("timeout", 20, "per-obligation solver timeout (s)")
+		mode := fs.String("mode", "seq", "seq|conc|safety")
+		verbose := fs.Bool("v", false, "verbose")
+		fs.Parse(os.Args[3:])
+		t0 := time.Now()
+		eng, err := loadEngine("/repo", "/verif")
+		if err != nil {
+			fmt.Fprintln(os.Stderr, err)
+			os.Exit(2)
+		}
+		fmt.Printf("loaded in %.1fs\n", time.Since(t0).Seconds())
+		m := &Mode{}
+		if *props != "" {
+			m.Props = map[string]bool{}
+			for _, p := range strings.Split(*props, ",") {
+				m.Props[p] = true
+			}
+		}
+		m.Concurrent = *mode == "conc"
+		m.Safety = *mode == "safety"
+		var vcs []*VC
+		for _, fc := range eng.db.order {
+			if fc.Kind != "func" || !strings.Contains(fc.Key, os.Args[2]) {
+				continue
+			}
+			vc := eng.verifyFunction(fc, m)
+			vcs = append(vcs, vc)
+		}
+		dir := scratchDir()
+		defer func() {
+			if !*keep {
+				os.RemoveAll(dir)
+			} else {
+				fmt.Println("SMT files in", dir)
+			}
+		}()
+		solveAll(vcs, dir, *timeout, 0, *keep)
+		bad := 0
+		for _, vc := range vcs {
+			fmt.Printf("== %s: %d obligations\n", shortType(vc.fnName), len(vc.obls))
+			for _, u := range vc.unsupported {
+				fmt.Println("   UNSUPPORTED:", u)
+			}
+			sort.Slice(vc.obls, func(i, j int) bool { return vc.obls[i].Name < vc.obls[j].Name })
+			for _, o := range vc.obls {
+				ok := (o.Cover && o.Result != "unsat") || (!o.Cover && o.Result == "unsat")
+				if !ok {
+					bad++
+				}
+				if !ok || *verbose {
+					fmt.Printf("   %-8s %-7s %5.1fs %s\n", o.Result, o.Solver, o.Seconds, o.Name)
+					if !ok && o.Note != "" {
+						fmt.Printf("            %s\n", o.Note)
+					}
+					if o.Result == "error" {
+						fmt.Println(truncate(o.Model, 600))
 					}
 				}
 			}
 		}
+		fmt.Printf("done in %.1fs, %d not discharged\n", time.Since(t0).Seconds(), bad)
+		if bad > 0 {
+			os.Exit(1)
+		}
+	default:
+		runCheck(os.Args[1:])
 	}
-	fmt.Println("ok")
 }
